@@ -11,7 +11,8 @@ RULE = ("impl->spec: seeded random training sets (4..120 rows, 1..6 features, in
         "with many repeats / constant columns / pairwise-distinct columns; 2..4 classes with arbitrary label values "
         "incl. single-row classes, or integer / dyadic / arbitrary real targets), n_trees 1..30, m in {None,1..p}, max_depth {None,1..8}, "
         "min_samples_leaf 1..5, min_samples_split 0..8, 3 criteria, keep_samples on/off, seeds incl. 0, 1, 2^64-1; "
-        "every setting is fitted with two seeds, twice each, interleaved (A B A B), the earliest keys again at the "
+        "every setting is fitted with two seeds, twice each, interleaved (A B A B; first fits through the inherent fit/predict, "
+        "second fits through the api traits SupervisedEstimator::fit / Predictor::predict), the earliest keys again at the "
         "end of the session; first fits are observed completely (serde dump: trees[], samples[]; every member "
         "tree's public predict; predict on training + unseen rows; predict_oob).  spec->impl: every terminal "
         "state of the ForestAgg model is assembled as a real forest through serde and run through the real "
@@ -20,7 +21,8 @@ RULE = ("impl->spec: seeded random training sets (4..120 rows, 1..6 features, in
         "forest when its votes are not unanimous or its membership bits are mixed; distinct = distinct "
         "(key) resp. distinct model state")
 
-FIT_HITS = ("FirstFit", "Refit", "FitCls", "FitReg", "Kept", "NotKept", "InBagFit")
+FIT_HITS = ("FirstFit", "Refit", "FitCls", "FitReg", "Kept", "NotKept", "InBagFit",
+            "FewTreesKept", "RegRowWithoutOobTree", "RelativeRows", "AssembledDeep")
 
 
 def row_stats(o):
@@ -54,15 +56,17 @@ def describe(e):
                 "criterion=%d keep_samples=%s seed=%s" % (i["kind"], i["n"], i["p"], i["nTrees"], i["m"], i["maxDepth"],
                                                            i["msl"], i["mss"], i["crit"], i["keep"], i["seed"]))
     if e["ev"] == "ForestRefit":
-        return "second fit of key %s" % e["key"]
+        return "second fit of key %s (through the api traits SupervisedEstimator::fit / Predictor::predict)" % e["key"]
     o = e["obs"]
+    if e["ev"] == "ForestAsm":
+        return "assembled %s forest of %d decision chains, %d levels deep (harness-generated)" % (o["kind"], o["trees"], o["nTrain"])
     return "assembled %s forest of %d trees over %d rows (ForestAgg terminal state)" % (o["kind"], o["trees"], o["nTrain"])
 
 
 def kind_of(e, events):
     if e["ev"] == "ForestFit":
         return e["in"]["kind"]
-    if e["ev"] == "ForestObs":
+    if e["ev"] in ("ForestObs", "ForestAsm"):
         return e["obs"]["kind"]
     return e["base"].split(":")[1]
 
@@ -84,6 +88,8 @@ def report_bads(ctx, bads, events, origin):
         stored = [e]
         if ev == "ForestRefit" and e["key"] in by_key:
             stored = [by_key[e["key"]], e]
+        if ev == "ForestAsm":
+            origin = "assembled"
         key = "%s: %s forest, %s" % (clause, kind_of(e, events), origin if ev != "ForestRefit" else "refit")
         what = "%s fails on %s" % (clause, describe(e))
         if clause == "OobAnswers":
@@ -156,11 +162,16 @@ def run(ctx):
                single_row_class_fits=0, oob_unavailable_fits=0, real_target_fits=0, fractional_feature_fits=0)
     digests_by_base = {}
     sample_tie = sample_big = None
+    deepest = 0
     for e in events:
+        if e["ev"] == "ForestAsm":
+            continue
         digests_by_base.setdefault(e["base"], set()).add(e["fdigest"])
         if e["ev"] != "ForestFit" or e["status"] != "ok":
             continue
         o = e["obs"]
+        if e["in"]["family"] == "deep":
+            deepest = max(deepest, o.get("treeDepth", 0))
         if not (o["tpOk"] and len(o["treePred"]) == o["trees"] and all(len(x) == o["nAll"] for x in o["treePred"])):
             continue
         if o["hasMask"] and not (len(o["mask"]) == o["trees"] and all(len(x) == o["nTrain"] for x in o["mask"])):
@@ -205,20 +216,30 @@ def run(ctx):
         if ctx.extra.get("assemble_failures"):
             raise vlib.ToolError("the harness could not assemble %d forests of ForestAgg states as asked"
                                  % ctx.extra["assemble_failures"])
+        if deepest <= 70:
+            raise vlib.ToolError("vacuous run: the deep-chain family produced no member tree deeper than 70 levels (max %d)" % deepest)
         for name in sorted(tot):
             if tot[name] == 0:
                 raise vlib.ToolError("vacuous run: the generated fits contain no case of %s" % name)
         if seed_sensitive == 0:
             raise vlib.ToolError("vacuous run: no setting produced different forests for different seeds")
     ctx.evaluations = len(events) + len(obs_events)
-    ctx.traces = sum(1 for e in events if e["ev"] in ("ForestFit", "ForestRefit")) + len(obs_events)
+    ctx.traces = sum(1 for e in events if e["ev"] in ("ForestFit", "ForestRefit", "ForestAsm")) + len(obs_events)
     ctx.extra["fits"] = {"real_fits": len(events), "keys": v2.get("keys"), "settings_whose_two_seeds_gave_different_forests": seed_sensitive,
                          "settings": len(digests_by_base)}
     ctx.extra["fits"].update(tot)
+    ctx.extra["fits"]["deepest_fitted_member_tree"] = deepest
+    fam = {}
+    for e in events:
+        if e["ev"] == "ForestFit":
+            fam[e["in"]["family"]] = fam.get(e["in"]["family"], 0) + 1
+    fam["assembled deep chains"] = sum(1 for e in events if e["ev"] == "ForestAsm")
+    ctx.extra["fits"]["families"] = fam
     ctx.extra["assembled_forests"] = {"replayed": len(obs_events), "nontrivial": nt_asm, "exhaustive_over_model_scope": True}
     ctx.extra["not_covered"] = ["'all seeds (u64)' is sampled (edge seeds 0, 1, 2^64-1 always included), not enumerated",
                                 "regression values are compared in fixed point 2^-16: deviations below ~2^-15 (a few ulps) are not decided",
                                 "for arbitrary real targets the range clause grants one fixed-point unit (2^-16); |y| <= 200; f32 forests are not exercised",
+                                "a classifier's OOB value for a row that no tree left out is unconstrained (a label cannot be told from a leaked in-bag vote)",
                                 "which rows a member tree was really grown from is observable only through InBagFit (unlimited trees on "
                                 "distinct-valued features reproduce their in-bag rows)"]
     samples = []
